@@ -126,6 +126,77 @@ func KAC(id model.Ident) (*keys_and_cert.KeysAndCert, error) {
 	return keys_and_cert.NewKeysAndCert(kc, pk, append([]byte{}, id.Pad...), sk)
 }
 
+// KACPair builds the identity twice through NewKeysAndCert from one key table: the
+// slice-typed arguments of the two calls (X25519-family encryption key, Ed25519-family
+// signing key, padding) are adjacent windows of a single buffer whose capacity runs on
+// past them - the shape keys have when they come out of a key file, a key table or a
+// received message. intact() reports whether the table still holds what was put there:
+// a library that appends to such a slice writes into its neighbours.
+func KACPair(id model.Ident) (a, b *keys_and_cert.KeysAndCert, intact func() error, err error) {
+	const spare = 1024
+	parts := [][]byte{id.Enc, id.Enc, id.Sig, id.Sig, id.Pad, id.Pad}
+	total := 0
+	for _, p := range parts {
+		total += len(p)
+	}
+	table := make([]byte, total+spare)
+	for i := range table {
+		table[i] = 0xA5
+	}
+	win := make([][]byte, len(parts))
+	off := 0
+	for i, p := range parts {
+		copy(table[off:], p)
+		win[i] = table[off : off+len(p)] // capacity deliberately left open
+		off += len(p)
+	}
+	orig := append([]byte{}, table...)
+	intact = func() error {
+		for i := range table {
+			if table[i] != orig[i] {
+				where := "the spare capacity behind the table"
+				if i < total {
+					where = "a neighbouring key or padding"
+				}
+				return fmt.Errorf("the key table handed to NewKeysAndCert was overwritten at offset %d of %d (%s): the library wrote through a key or padding slice into the caller's memory", i, total, where)
+			}
+		}
+		return nil
+	}
+	mk := func(enc, sig, pad []byte) (*keys_and_cert.KeysAndCert, error) {
+		kc, err := KeyCert(id)
+		if err != nil {
+			return nil, err
+		}
+		var pk types.ReceivingPublicKey
+		switch id.EncType {
+		case 4, 5, 6, 7:
+			pk = curve25519.Curve25519PublicKey(enc)
+		default:
+			if pk, err = PubKey(id.EncType, enc); err != nil {
+				return nil, err
+			}
+		}
+		var sk types.SigningPublicKey
+		switch id.SigType {
+		case 7, 8, 11:
+			sk = ed25519.Ed25519PublicKey(sig)
+		default:
+			if sk, err = SigPub(id.SigType, sig); err != nil {
+				return nil, err
+			}
+		}
+		return keys_and_cert.NewKeysAndCert(kc, pk, pad, sk)
+	}
+	if a, err = mk(win[0], win[2], win[4]); err != nil {
+		return nil, nil, nil, err
+	}
+	if b, err = mk(win[1], win[3], win[5]); err != nil {
+		return nil, nil, nil, err
+	}
+	return a, b, intact, nil
+}
+
 // Dest builds a Destination through the constructors.
 func Dest(id model.Ident) (*destination.Destination, error) {
 	k, err := KAC(id)
